@@ -174,6 +174,13 @@ impl<'tcx> Cx<'tcx> {
             }
             _ => {}
         }
+        // a reference to a static: name the static
+        if let Const::Val(rustc_middle::mir::ConstValue::Scalar(rustc_middle::mir::interpret::Scalar::Ptr(ptr, _)), _) = c {
+            let aid = ptr.provenance.alloc_id();
+            if let Some(rustc_middle::mir::interpret::GlobalAlloc::Static(sd)) = self.tcx.try_get_global_alloc(aid) {
+                let _ = write!(s, ",\"static\":{}", esc(&self.path(sd)));
+            }
+        }
         let _ = body;
         s.push('}');
         s
